@@ -845,6 +845,10 @@ fn goodbye_with<R: Rt>(sizes: &[usize], goodbye: usize, drop_write_half_first: b
         let mut f = serde_json::to_vec(m).unwrap();
         f.push(0);
         if let Err(e) = peer.write_all(&f) {
+            if drop_write_half_first {
+                // only our WRITE half is gone: the peer must still be able to send to our read half
+                return Err(("sockets:dropping-one-half-closed-the-other".into(), what(format!("the peer's write failed with `{e}` although only the write half of our split connection was dropped"))));
+            }
             xplore::bug!("peer write: {e}");
         }
     }
